@@ -31,13 +31,19 @@ class _Worker:
         env['PYTHONPATH'] = self.scratch + os.pathsep + HERE + os.pathsep + env.get('PYTHONPATH', '')
         env['PYNDL_SCRATCH'] = self.scratch
         env.setdefault('OMP_WAIT_POLICY', 'passive')
+        # numpy's BLAS pools are never needed here and cost seconds of CPU per worker start
+        env.setdefault('OPENBLAS_NUM_THREADS', '1')
+        env.setdefault('MKL_NUM_THREADS', '1')
+        env['PYTHONUTF8'] = '1'
         env.update(self.env_extra)
+        self.ready = False
         self.proc = subprocess.Popen([PY, '-W', 'ignore', os.path.join(HERE, 'worker.py')],
                                      stdin=subprocess.PIPE, stdout=subprocess.PIPE,
                                      stderr=subprocess.DEVNULL, env=env, start_new_session=True,
                                      cwd=os.path.join(self.scratch, 'work'))
 
     def kill(self):
+        self.ready = False
         if self.proc is None:
             return
         try:
@@ -50,37 +56,62 @@ class _Worker:
             pass
         self.proc = None
 
+    def _read_line(self, deadline):
+        """one reply line, or None on deadline, or b'' if the worker died"""
+        chunks = []
+        fd = self.proc.stdout.fileno()
+        while True:
+            left = deadline - time.monotonic()
+            if left <= 0:
+                return None
+            r, _, _ = select.select([fd], [], [], min(left, 1.0))
+            if r:
+                chunk = os.read(fd, 1 << 20)
+                if not chunk:
+                    return b''
+                chunks.append(chunk)
+                if chunk.endswith(b'\n'):
+                    return b''.join(chunks)
+
+    def wait_ready(self, limit=600):
+        """the worker announces the end of its imports; not charged to any task"""
+        if self.ready:
+            return True
+        line = self._read_line(time.monotonic() + limit)
+        if not line:
+            self.kill()
+            raise Infra('a harness worker did not start within %d s (imports of numpy/xarray/pyndl)' % limit)
+        self.ready = True
+        return True
+
     def run(self, task, timeout):
         if self.proc is None or self.proc.poll() is not None:
             self.start()
+        self.wait_ready()
         line = (json.dumps(task, ensure_ascii=False) + '\n').encode('utf-8')
         try:
             self.proc.stdin.write(line)
             self.proc.stdin.flush()
         except (BrokenPipeError, OSError):
+            rc = self.proc.poll()
             self.kill()
-            return {'err': 'WorkerDied'}
-        deadline = time.time() + timeout
-        buf = b''
-        fd = self.proc.stdout.fileno()
-        while True:
-            left = deadline - time.time()
-            if left <= 0:
-                self.kill()
-                return {'err': 'Timeout', 'seconds': timeout}
-            r, _, _ = select.select([fd], [], [], min(left, 1.0))
-            if r:
-                chunk = os.read(fd, 1 << 20)
-                if not chunk:
-                    self.kill()
-                    return {'err': 'WorkerDied'}
-                buf += chunk
-                if buf.endswith(b'\n'):
-                    # the worker writes exactly one line per task
-                    try:
-                        return json.loads(buf.decode('utf-8'))
-                    except ValueError:
-                        continue
+            return {'err': 'WorkerDied', 'returncode': rc}
+        buf = self._read_line(time.monotonic() + timeout)
+        if buf is None:
+            self.kill()
+            return {'err': 'Timeout', 'seconds': timeout}
+        if buf == b'':
+            try:
+                rc = self.proc.wait(timeout=5)
+            except Exception:
+                rc = None
+            self.kill()
+            return {'err': 'WorkerDied', 'returncode': rc}
+        try:
+            return json.loads(buf.decode('utf-8'))
+        except ValueError:
+            self.kill()
+            return {'err': 'WorkerDied', 'msg': 'unparsable reply'}
 
 
 class ImplPool:
@@ -89,6 +120,7 @@ class ImplPool:
 
     def __init__(self, scratch, n=8, timeout=60, env_extra=None):
         self.scratch = scratch
+        n = max(2, min(n, os.cpu_count() or n))
         self.n = n
         self.timeout = timeout
         self.workers = [_Worker(scratch, env_extra) for _ in range(n)]
@@ -101,14 +133,26 @@ class ImplPool:
         # `full_timeouts` tasks of one map() have run into the full deadline, the remaining tasks get the short
         # deadline max(short_floor, 4 x the slowest task that did complete so far) — still a real observation
         # (the result says which deadline applied)
+        # The rule applies ONLY to the properties whose statement is about termination (retry_timeouts off: C02,
+        # C04, C05) — there a short timeout is still a Timeout and the run is failing already; for all other
+        # properties every task keeps its full deadline and its second attempt.  An explicit per-task `_timeout`
+        # is never shortened.
         self.full_timeouts = 3
-        self.short_floor = 10.0
+        self.short_floor = 15.0
         # one state for all pools of this check run (C02 uses one pool per hash seed)
         self._tstate = ImplPool._shared_tstate
         self._tlock = ImplPool._shared_tlock
 
     def map(self, tasks, timeout=None):
         results = self._map(tasks, timeout)
+        # a worker that died (killed by the OOM killer, SIGBUS on a full disk, ...) or a harness-side exception:
+        # one more attempt on a fresh worker for every property — a crash of the code under test reproduces
+        again = [i for i, r in enumerate(results) if r.get('err') in ('WorkerDied', 'HarnessError')]
+        if again:
+            second = self._map([tasks[i] for i in again], timeout)
+            for i, r in zip(again, second):
+                r['_first_attempt'] = results[i].get('err')
+                results[i] = r
         if self.retry_timeouts:
             again = [i for i, r in enumerate(results) if r.get('err') == 'Timeout']
             if again:
@@ -138,15 +182,22 @@ class ImplPool:
                     return
                 limit = t.get('_timeout', timeout)
                 with lock:
-                    if state['timeouts'] >= self.full_timeouts:
-                        limit = min(limit, max(self.short_floor, 4 * state['slowest_ok']))
-                t0 = time.time()
-                res = w.run(t, limit)
-                dt = time.time() - t0
+                    if (not self.retry_timeouts and '_timeout' not in t
+                            and state['timeouts'] >= self.full_timeouts):
+                        limit = min(limit, max(self.short_floor, 4 * max(state['slowest_ok'], 3.0)))
+                t0 = time.monotonic()
+                try:
+                    res = w.run(t, limit)
+                except Infra:
+                    raise
+                except Exception as e:  # noqa  (e.g. EAGAIN when starting a worker)
+                    res = {'err': 'WorkerDied', 'msg': 'pool: %s: %s' % (type(e).__name__, e)}
+                dt = time.monotonic() - t0
                 res['_seconds'] = round(dt, 3)
                 with lock:
                     if res.get('err') == 'Timeout':
-                        state['timeouts'] += 1
+                        if not self.retry_timeouts:
+                            state['timeouts'] += 1
                         res['deadline'] = limit
                     else:
                         state['slowest_ok'] = max(state['slowest_ok'], dt)
